@@ -169,7 +169,12 @@ pub(crate) fn on_remove_worker(
         .on_worker_lost(worker_id, &running_tasks, reason);
 
     for task_id in running_tasks {
-        let task = core.get_task_mut(task_id);
+        // Failing a task may cause that the client cancels other tasks
+        // (e.g. when a fail limit of a job is reached), so the task may be already removed
+        let Some(task) = core.find_task_mut(task_id) else {
+            log::debug!("Task {task_id} was removed in the meantime");
+            continue;
+        };
         if CrashLimit::NeverRestart == task.configuration.crash_limit {
             log::debug!("Task {task_id} with never restart flag crashed");
             let error_info = TaskFailInfo {
